@@ -102,13 +102,65 @@ def targeted_merge_script(rng, g, colty, order):
     return s
 
 
+def check_script(chk, s, tables, sample=False):
+    """one chained script: the builder must accept it exactly when the step-by-step build does, and both must evaluate alike"""
+    import pipes
+    tmap = {t["name"]: t for t in tables}
+    frames = {t["name"]: pipes.table_frame(t) for t in tables}
+    try:
+        ops = pipes.build(s, tmap)
+        built = True
+    except Exception as e:
+        built, berr = False, e
+    try:
+        r2 = pipes.eval_stepwise(s, tmap, frames)
+        stepped = True
+    except pipes.StepBuildError as e:
+        stepped, serr = False, e
+    except Exception as e:
+        chk.dist("stepwise_eval_error:" + type(e).__name__)      # executor error, not a builder rejection: outside C06
+        return
+    kinds = pipes.script_ops(s)
+    chk.count(("chain", json.dumps(pipes.to_json(s), sort_keys=True), json.dumps([t["rows"] for t in tables], default=str)), nontrivial=len(kinds) >= 2)
+    for k in kinds:
+        chk.dist("step:" + k)
+    if built != stepped:
+        chk.impl_violation("chained build and step-by-step build disagree on accepting the steps",
+                           {"kind": "impl-violation", "script": pipes.to_json(s), "tables": tables, "chain_built": built, "stepwise_built": stepped,
+                            "error": repr(berr if not built else serr)}, {"oracle": "accept", "ops": sorted(set(kinds))})
+        return
+    if not built:
+        return
+    try:
+        r1 = pipes.eval_pandas(ops, frames)
+    except Exception as e:
+        chk.dist("chain_eval_error:" + type(e).__name__)
+        return
+    d = pipes.frames_equiv(r1, r2, check_row_order=False)
+    if sample:
+        chk.sample({"script": pipes.to_json(s), "result_rows": len(r1)})
+    if d is not None:
+        chk.impl_violation("chained pipeline differs from step-by-step application: " + d,
+                           {"kind": "impl-violation", "script": pipes.to_json(s), "pipeline": str(ops), "tables": tables, "chain": pipes.frame_to_json(r1),
+                            "stepwise": pipes.frame_to_json(r2), "diff": d}, {"oracle": "chain", "ops": sorted(set(kinds))})
+
+
+def corpus_scripts(chk):
+    """minimised scripts of earlier failures (corpus/C06/*.json) run first on every run"""
+    import glob
+    n = 0
+    for f in sorted(glob.glob(os.path.join(lib.ROOT, "corpus", "C06", "*.json"))):
+        r = json.load(open(f))
+        check_script(chk, r["script"], r["tables"])
+        n += 1
+    chk.cov["corpus_cases"] = n
+
+
 def chain_vs_steps(chk, n):
     import pipes
     rng = chk.rng
-    nbuild_rej = 0
     for i in range(n):
         tables = [pipes.gen_table(rng, "d1", unique_col="uid"), pipes.gen_table(rng, "d2", unique_col="uid")]
-        tmap = {t["name"]: t for t in tables}
         g = pipes.Gen(rng, tables, features=["extend", "extend", "wextend", "project", "select_rows", "select_columns", "select_columns", "drop_columns",
                                               "rename_columns", "map_columns", "order_rows", "order_rows", "natural_join", "concat_rows"])
         if i % 3 == 0:
@@ -117,46 +169,7 @@ def chain_vs_steps(chk, n):
                 continue
         else:
             s, _, _ = g.pipeline(rng.randint(2, 6))
-        frames = {t["name"]: pipes.table_frame(t) for t in tables}
-        try:
-            ops = pipes.build(s, tmap)
-            built = True
-        except Exception as e:
-            built, berr = False, e
-        try:
-            r2 = pipes.eval_stepwise(s, tmap, frames)
-            stepped = True
-        except pipes.StepBuildError as e:
-            stepped, serr = False, e
-        except Exception as e:
-            chk.dist("stepwise_eval_error:" + type(e).__name__)      # executor error, not a builder rejection: outside C06
-            continue
-        kinds = pipes.script_ops(s)
-        chk.count(("chain", json.dumps(pipes.to_json(s), sort_keys=True), json.dumps([t["rows"] for t in tables], default=str)), nontrivial=len(kinds) >= 2)
-        for k in kinds:
-            chk.dist("step:" + k)
-        if built != stepped:
-            # evaluation errors of the stepwise run that are not builder rejections are executor issues, not C06
-            nbuild_rej += 1
-            chk.impl_violation("chained build and step-by-step build disagree on accepting the steps",
-                               {"kind": "impl-violation", "script": pipes.to_json(s), "tables": tables, "chain_built": built, "stepwise_built": stepped,
-                                "error": repr(berr if not built else serr)}, {"oracle": "accept", "ops": sorted(set(kinds))})
-            continue
-        if not built:
-            continue
-        try:
-            r1 = pipes.eval_pandas(ops, frames)
-        except Exception as e:
-            chk.dist("chain_eval_error:" + type(e).__name__)
-            continue
-        ends_order = s["op"] == "order_rows"
-        d = pipes.frames_equiv(r1, r2, check_row_order=False)
-        if i < 3:
-            chk.sample({"script": pipes.to_json(s), "result_rows": len(r1)})
-        if d is not None:
-            chk.impl_violation("chained pipeline differs from step-by-step application: " + d,
-                               {"kind": "impl-violation", "script": pipes.to_json(s), "pipeline": str(ops), "tables": tables, "chain": pipes.frame_to_json(r1),
-                                "stepwise": pipes.frame_to_json(r2), "diff": d}, {"oracle": "chain", "ops": sorted(set(kinds))})
+        check_script(chk, s, tables, sample=i < 3)
 
 
 def accept_reject(chk, n):
@@ -238,6 +251,7 @@ def run(chk):
         merge_correspondence(chk, n1)
     else:
         chk.corr_break("Model/MergeCases.vo not built", "")
+    corpus_scripts(chk)
     chain_vs_steps(chk, n2)
     accept_reject(chk, n3)
 
@@ -248,9 +262,22 @@ def replay(path):
     if "script" in r and "tables" in r:
         tmap = {t["name"]: t for t in r["tables"]}
         frames = {t["name"]: pipes.table_frame(t) for t in r["tables"]}
-        ops = pipes.build(r["script"], tmap)
+        try:
+            ops, built = pipes.build(r["script"], tmap), True
+        except Exception as e:
+            built = False
+            print("chained build rejected:", repr(e))
+        try:
+            b, stepped = pipes.eval_stepwise(r["script"], tmap, frames), True
+        except pipes.StepBuildError as e:
+            stepped = False
+            print("step-by-step build rejected:", repr(e))
+        if built != stepped:
+            print("chained build accepted:", built, " step-by-step build accepted:", stepped)
+            return 1
+        if not built:
+            return 0
         a = pipes.eval_pandas(ops, frames)
-        b = pipes.eval_stepwise(r["script"], tmap, frames)
         print(ops); print(a); print(b)
         d = pipes.frames_equiv(a, b)
         print("diff:", d)
